@@ -1874,6 +1874,185 @@ Proof.
   destruct (unweld_ok (w_n m) gs (w_idx m) Hl (Hi eq_refl)) as (ua & ->). cbn [rbind]. eexists. reflexivity.
 Qed.
 
+(* ================= reader construction when user names are members of reader groups ================= *)
+(* A reader group is built only when ALL its members are in the file (with one type).  A user-named property that is a
+   member of a group some member of which is absent from the file is therefore claimed by no group reader. *)
+Lemma seqb_eq0 a b : seqb a b = true -> a = b.
+Proof. unfold seqb. apply String.eqb_eq. Qed.
+Definition pnames (ps : list prop) : list string := map prop_name ps.
+
+Lemma all_some_none {A} (l : list (option A)) k : nth_error l k = Some None -> all_some l = None.
+Proof.
+  revert k. induction l as [|x l IH]; intros [|k] H; try discriminate.
+  - cbn in H. injection H as ->. reflexivity.
+  - cbn in H. destruct x; [cbn [all_some]; rewrite (IH k H); reflexivity|reflexivity].
+Qed.
+
+Lemma scan_members_keeps_none m0 name : name <> m0 -> forall ms offs ty cur t k,
+  nth_error ms k = Some m0 -> nth_error offs k = Some None ->
+  nth_error (fst (scan_members ms offs ty cur t name)) k = Some None.
+Proof.
+  intros Hn. induction ms as [|m ms IH]; intros offs ty cur t k Hm Ho; [destruct k; discriminate|].
+  destruct offs as [|o os]; [destruct k; discriminate|]. cbn [scan_members].
+  destruct (seqb name m) eqn:E.
+  - destruct k as [|k].
+    + cbn in Hm. injection Hm as ->. apply seqb_eq0 in E. contradiction.
+    + cbn in Hm, Ho. specialize (IH os (match ty with Some _ => ty | None => Some t end) cur t k Hm Ho).
+      destruct (scan_members ms os _ cur t name) as [os' ty'']. exact IH.
+  - destruct k as [|k].
+    + cbn in Ho. destruct (scan_members ms os ty cur t name) as [os' ty'']. exact Ho.
+    + cbn in Hm, Ho. specialize (IH os ty cur t k Hm Ho). destruct (scan_members ms os ty cur t name) as [os' ty'']. exact IH.
+Qed.
+
+Lemma scan_props_keeps_none bin m0 ms k : nth_error ms k = Some m0 -> forall ps cur offs ty,
+  ~ In m0 (pnames ps) -> nth_error offs k = Some None ->
+  match scan_props bin ms ps cur offs ty with Ok (offs', _) => nth_error offs' k = Some None | Err _ => True end.
+Proof.
+  intros Hm. induction ps as [|p ps IH]; intros cur offs ty Hn Ho; [exact Ho|].
+  destruct p as [t n|]; [|exact I]. cbn [scan_props].
+  pose proof (scan_members_keeps_none m0 n ltac:(intros E; apply Hn; left; exact E) ms offs ty cur t k Hm Ho) as S.
+  destruct (scan_members ms offs ty cur t n) as [offs' ty']. apply IH; [|exact S]. intros H. apply Hn. right. exact H.
+Qed.
+
+Lemma build_vec_absent bin attr ms ps m0 : all_scalar ps = true -> In m0 ms -> ~ In m0 (pnames ps) ->
+  build_vec bin attr ms ps = Ok None.
+Proof.
+  intros Hs Hin Hn. apply In_nth_error in Hin. destruct Hin as (k & Hk).
+  assert (Ho : nth_error (map (fun _ : string => @None nat) ms) k = Some None) by (rewrite nth_error_map, Hk; reflexivity).
+  pose proof (scan_props_keeps_none bin m0 ms k Hk ps 0%nat _ None Hn Ho) as S.
+  unfold build_vec.
+  assert (Hne : forall cur offs ty, exists r, scan_props bin ms ps cur offs ty = Ok r).
+  { clear -Hs. induction ps as [|p ps IH]; intros cur offs ty; [eexists; reflexivity|].
+    destruct p as [t n|]; [|discriminate]. cbn [scan_props]. destruct (scan_members ms offs ty cur t n). apply IH. exact Hs. }
+  destruct (Hne 0%nat (map (fun _ : string => None) ms) None) as ([offs' ty'] & E). rewrite E in S |- *. cbn [rbind].
+  rewrite (all_some_none offs' k S). reflexivity.
+Qed.
+
+(* the condition under which group g is not touched by the extra properties T *)
+Definition grp_open (ms : list string) (P T : list prop) : Prop :=
+  Forall (pname_fresh ms) T \/ exists m0, In m0 ms /\ ~ In m0 (pnames (P ++ T)).
+Definition group_open (g : group) (P T : list prop) : Prop :=
+  match g_members g with
+  | [m0] => Forall (pname_fresh [m0]) T
+  | ms => grp_open ms P T /\ (g_ignorable_w g = true -> grp_open (firstn 3 ms) P T)
+  end.
+
+Lemma all_scalar_app a b : all_scalar (a ++ b) = all_scalar a && all_scalar b.
+Proof. induction a as [|p a IH]; [reflexivity|]. destruct p; [exact IH|reflexivity]. Qed.
+
+Lemma build_vec_open bin attr ms P T : all_scalar (P ++ T) = true -> grp_open ms P T ->
+  build_vec bin attr ms (P ++ T) = build_vec bin attr ms P.
+Proof.
+  intros Hs [Hf|(m0 & Hin & Hab)]; [apply build_vec_app_fresh, Hf|].
+  rewrite (build_vec_absent bin attr ms (P ++ T) m0 Hs Hin Hab).
+  rewrite all_scalar_app in Hs. apply andb_prop in Hs. destruct Hs as [HsP _].
+  rewrite (build_vec_absent bin attr ms P m0 HsP Hin); [reflexivity|].
+  intros H. apply Hab. unfold pnames. rewrite map_app. apply in_or_app. left. exact H.
+Qed.
+
+Lemma build_group_open bin g P T : all_scalar (P ++ T) = true -> group_open g P T ->
+  build_group bin g (P ++ T) = build_group bin g P.
+Proof.
+  intros Hs Ho. unfold group_open in Ho. unfold build_group. destruct (g_members g) as [|m0 [|m1 ms]] eqn:E.
+  - destruct Ho as [O1 O2]. rewrite build_vec_open by assumption.
+    destruct (build_vec bin (g_attr g) [] P) as [[b|]|]; cbn [rbind]; try reflexivity.
+    destruct (g_ignorable_w g); [|reflexivity]. apply build_vec_open; [assumption|apply O2; reflexivity].
+  - unfold build_v1. rewrite find_v1_app_fresh by assumption. reflexivity.
+  - destruct Ho as [O1 O2]. rewrite build_vec_open by assumption.
+    destruct (build_vec bin (g_attr g) (m0 :: m1 :: ms) P) as [[b|]|]; cbn [rbind]; try reflexivity.
+    destruct (g_ignorable_w g); [|reflexivity]. apply build_vec_open; [assumption|apply O2; reflexivity].
+Qed.
+
+Lemma build_groups_open bin gs P T : all_scalar (P ++ T) = true -> Forall (fun g => group_open g P T) gs ->
+  build_groups bin gs (P ++ T) = build_groups bin gs P.
+Proof.
+  intros Hs. induction gs as [|g gs IH]; intros H; [reflexivity|]. inversion H as [|? ? Hg Hgs]; subst.
+  cbn [build_groups]. rewrite build_group_open by assumption. rewrite IH by assumption. reflexivity.
+Qed.
+
+Lemma pnames_props gs : pnames (vertex_props gs) = flat_map rg_names gs.
+Proof.
+  unfold pnames, vertex_props. induction gs as [|g gs IH]; [reflexivity|]. cbn [flat_map]. rewrite map_app, IH. f_equal.
+  unfold group_props. rewrite map_map. cbn [prop_name]. apply map_id.
+Qed.
+Lemma fresh_of_notin n ps : all_scalar ps = true -> ~ In n (pnames ps) -> Forall (pname_fresh [n]) ps.
+Proof.
+  induction ps as [|p ps IH]; intros Hs Hn; [constructor|]. destruct p as [t x|]; [|discriminate]. constructor.
+  - cbn. intros [E|[]]. apply Hn. left. symmetry. exact E.
+  - apply IH; [exact Hs|]. intros H. apply Hn. right. exact H.
+Qed.
+Lemma claims_layout_notin bin n gs : forall c, ~ In n (flat_map rg_names gs) -> existsb (fun b => claims b n) (layout bin gs c) = false.
+Proof.
+  induction gs as [|g gs IH]; intros c Hn; [reflexivity|]. cbn [layout existsb flat_map] in *. unfold claims at 1. cbn [b_names].
+  rewrite not_In_existsb by (intros H; apply Hn, in_or_app; left; exact H). cbn [orb].
+  apply IH. intros H. apply Hn, in_or_app. right. exact H.
+Qed.
+
+(* ply.ReadMesh builds exactly the laid-out readers on ply.Write's table followed by user-named scalars, as long as
+   these complete no reader group (and are distinct from each other and from the table's own property names) *)
+Theorem readers_ok_default_open bin m (sel : pw -> bool) tail :
+  let pregs := map (group_of m) (filter sel default_writers) in
+  Forall scalar_group tail -> NoDup (map rg_attr tail) ->
+  (forall g, In g tail -> ~ In (rg_attr g) (pnames (vertex_props pregs))) ->
+  Forall (fun g => group_open g (vertex_props pregs) (vertex_props tail)) default_groups ->
+  readers_ok bin (pregs ++ tail).
+Proof.
+  intros pregs Hs Hnd Hnp Hopen.
+  destruct (groups_claimed_default bin m sel) as [B1 B2]. fold pregs in B1, B2.
+  unfold readers_ok, build_readers. rewrite vertex_props_app.
+  rewrite build_groups_open; [|rewrite <- vertex_props_app; apply all_scalar_props|exact Hopen].
+  rewrite B1. cbn [rbind]. rewrite add_unclaimed_claimed by exact B2.
+  pose proof (add_unclaimed_tail bin pregs (layout bin pregs 0) tail [] Hs Hnd) as A. cbn [app layout] in A.
+  rewrite app_nil_r in A. rewrite A.
+  - rewrite layout_app. reflexivity.
+  - intros g Hg. apply fresh_of_notin; [apply all_scalar_props|apply Hnp, Hg].
+  - intros g Hg. apply claims_layout_notin. rewrite <- pnames_props. apply Hnp, Hg.
+Qed.
+
+(* the executable test of [wf_mesh] implies the condition *)
+Lemma absentb_notin l n : absentb l n = true -> ~ In n l.
+Proof. unfold absentb. apply not_existsb_In. Qed.
+Lemma fresh_of_absent ms T : all_scalar T = true -> forallb (absentb ms) (pnames T) = true -> Forall (pname_fresh ms) T.
+Proof.
+  induction T as [|p T IH]; intros Hs H; [constructor|]. destruct p as [t n|]; [|discriminate].
+  cbn [pnames map forallb prop_name] in H. apply andb_prop in H. destruct H as [H1 H2]. constructor; [apply absentb_notin, H1|apply IH; assumption].
+Qed.
+Lemma grp_openb_open ms P T : all_scalar T = true -> grp_openb ms (pnames P ++ pnames T) (pnames T) = true -> grp_open ms P T.
+Proof.
+  intros Hs H. unfold grp_openb in H. apply orb_prop in H. destruct H as [H|H].
+  - left. apply fresh_of_absent; assumption.
+  - right. apply existsb_exists in H. destruct H as (m0 & Hin & Hab). exists m0. split; [exact Hin|].
+    unfold pnames. rewrite map_app. apply absentb_notin, Hab.
+Qed.
+Lemma group_openb_open g P T : all_scalar T = true -> group_openb g (pnames P ++ pnames T) (pnames T) = true -> group_open g P T.
+Proof.
+  intros Hs H. unfold group_openb in H. unfold group_open. destruct (g_members g) as [|m0 [|m1 ms]].
+  - apply andb_prop in H. destruct H as [H1 H2]. split; [apply grp_openb_open; assumption|].
+    intros Hi. rewrite Hi in H2. cbn [negb orb] in H2. apply grp_openb_open; assumption.
+  - apply fresh_of_absent; assumption.
+  - apply andb_prop in H. destruct H as [H1 H2]. split; [apply grp_openb_open; assumption|].
+    intros Hi. rewrite Hi in H2. cbn [negb orb] in H2. apply grp_openb_open; assumption.
+Qed.
+Lemma group_open_nil g P : group_open g P [].
+Proof.
+  unfold group_open. destruct (g_members g) as [|m0 [|m1 ms]]; try (split; [left; constructor|intros _; left; constructor]). constructor.
+Qed.
+
+
+Lemma NoDup_app_disjoint {A} (a b : list A) : NoDup (a ++ b) -> forall x, In x b -> In x a -> False.
+Proof.
+  induction a as [|y a IH]; intros H x Hb Ha; [destruct Ha|]. cbn [app] in H. apply NoDup_cons_iff in H. destruct H as [Hn H].
+  destruct Ha as [->|Ha]; [apply Hn, in_or_app; right; exact Hb|apply (IH H x Hb Ha)].
+Qed.
+Lemma NoDup_app_tail {A} (a b : list A) : NoDup (a ++ b) -> NoDup b.
+Proof. induction a as [|y a IH]; intros H; [exact H|]. cbn [app] in H. apply NoDup_cons_iff in H. apply IH, H. Qed.
+Lemma scalar_names gs : Forall scalar_group gs -> flat_map rg_names gs = map rg_attr gs.
+Proof. induction gs as [|g gs IH]; intros H; [reflexivity|]. inversion H as [|? ? Hg Hgs]; subst. cbn [flat_map map]. rewrite Hg, IH by assumption. reflexivity. Qed.
+Lemma pnames_pregs m : pnames (vertex_props (map (group_of m) (qd m))) = default_prop_names m.
+Proof. rewrite pnames_props, flat_map_map_comp. reflexivity. Qed.
+Lemma pnames_tail m l : pnames (vertex_props (tail_of m l)) = flat_map pw_names l.
+Proof. rewrite pnames_props, (scalar_names _ (tail_scalar m l)). apply tail_attrs. Qed.
+
 (* ================= the whole-file statement for ply.Write's table ================= *)
 Lemma default_conditions o f m : o_writers o = default_writers -> wf_mesh m = true -> no_st m ->
   (f = ASCII -> w_n m = 0%nat \/ vertex_props (rview o m) <> []) ->
@@ -1891,8 +2070,9 @@ Proof.
   apply andb_prop in Hwf. destruct Hwf as [Hwf Hemp]. apply andb_prop in Hwf. destruct Hwf as [Hattr _].
   assert (Ha : forall x, In x (w_attrs m) -> wf_attr (w_n m) x = true) by (rewrite forallb_forall in Hattr; exact Hattr).
   apply nodupb_NoDup in Hnd. apply not_existsb_In in Hop.
-  assert (Hres' : forall n, In n (user_names m) -> ~ In n reserved_names)
-    by (intros n Hn; rewrite forallb_forall in Hres; apply not_existsb_In, Hres, Hn).
+  assert (Hdis : forall n, In n (user_names m) -> ~ In n (default_prop_names m))
+    by (intros n Hu Hd; apply (NoDup_app_disjoint _ _ Hnd n); assumption).
+  apply NoDup_app_tail in Hnd.
   set (l := if o_unspec o then ud m else []).
   assert (Hl : incl (flat_map pw_names l) (user_names m) /\ NoDup (flat_map pw_names l)).
   { unfold l. destruct (o_unspec o); [rewrite <- (user_names_ud m C); split; [apply incl_refl|exact Hnd]|split; [intros x []|constructor]]. }
@@ -1901,8 +2081,13 @@ Proof.
   pose proof (rview_shape o m Ho C) as Er. fold l in Er.
   split; [|split; [|split; [|split; [|split; [|split; [|split]]]]]].
   - apply effective_good; assumption.
-  - rewrite Er. unfold qd. apply (readers_ok_default_user (is_bin f) m (qualifies m)); [apply tail_scalar|rewrite tail_attrs; exact Hlnd|].
-    apply Forall_forall. intros g Hg. apply Hres', Hli. rewrite <- (tail_attrs m). apply in_map, Hg.
+  - rewrite Er. unfold qd. apply (readers_ok_default_open (is_bin f) m (qualifies m)); [apply tail_scalar|rewrite tail_attrs; exact Hlnd| |].
+    + intros g Hg. fold (qd m). rewrite pnames_pregs. apply Hdis, Hli. rewrite <- (tail_attrs m). apply in_map, Hg.
+    + fold (qd m). unfold l. destruct (o_unspec o).
+      * apply Forall_forall. intros g Hg. apply group_openb_open; [apply all_scalar_props|].
+        rewrite pnames_pregs, pnames_tail, <- (user_names_ud m C).
+        unfold no_group_completedb in Hres. rewrite forallb_forall in Hres. apply Hres, Hg.
+      * apply Forall_forall. intros g _. apply group_open_nil.
   - rewrite Er, keys_ok_app. cbn [app]. unfold qd. rewrite keys_ok_pregs. cbn [andb].
     apply keys_ok_scalars; [apply tail_scalar|rewrite tail_attrs; exact Hlnd|].
     intros g s Hg Hs. apply (pregs_vs_tail m); [| |exact Hs].
